@@ -441,7 +441,7 @@ Note2: that Reed-Solomon can correct up to 2*resilience_rate erasures (eg, null 
         outputpath = fullpath(args.output[0])
 
     errors_file = None
-    if args.errors_file: errors_file = os.path.basename(fullpath(args.errors_file[0]))
+    if args.errors_file: errors_file = fullpath(args.errors_file[0])
 
     # -- Checking arguments
     if not stats_only and not generate and not os.path.isfile(database):
